@@ -99,9 +99,10 @@ func newPointerEncoder(encoder *encoding.EncodeAssembler[any, Value]) encoding.E
 				return nil, nil
 			}), nil
 		} else if typ.Kind() == reflect.Pointer {
+			var enc encoding.Encoder[any, Value]
 			enc, err := encoder.Compile(typ.Elem())
 			if err != nil {
-				return nil, err
+				enc = encoder
 			}
 
 			return encoding.EncodeFunc(func(source any) (Value, error) {
